@@ -103,19 +103,21 @@ var Valid = map[string]func(t *rapid.T) any{
 	"proxy.cache_policy.force_default_max_age": func(t *rapid.T) any { return rapid.Bool().Draw(t, "v") },
 	"webserver.listen":                         func(t *rapid.T) any { return rapid.SampledFrom([]string{"localhost:8080", ":1"}).Draw(t, "v") },
 	"webserver.dashboard_disabled":             func(t *rapid.T) any { return rapid.Bool().Draw(t, "v") },
-	"webserver.api_disabled":                   func(t *rapid.T) any { return rapid.Bool().Draw(t, "v") },
-	"cache.max_cache_size":                     func(t *rapid.T) any { return drawBytes(t) },
-	"cache.type":                               func(t *rapid.T) any { return rapid.SampledFrom([]string{"memory", "file"}).Draw(t, "v") },
-	"cache.cleanup_interval":                   func(t *rapid.T) any { return rapid.SampledFrom(durations).Draw(t, "v") },
-	"cache.lock_shards":                        func(t *rapid.T) any { return rapid.SampledFrom([]int{1, 2, 3, 64, 1024, 65536}).Draw(t, "v") },
-	"cache.file.dir":                           func(t *rapid.T) any { return rapid.SampledFrom([]string{"var/cache/", "c", "/tmp/x y/"}).Draw(t, "v") },
-	"cache.memory.memory_budget_percent":       func(t *rapid.T) any { return rapid.SampledFrom([]int{1, 50, 75, 100}).Draw(t, "v") },
-	"logging.level":                            func(t *rapid.T) any { return rapid.SampledFrom(levels).Draw(t, "v") },
-	"logging.file":                             func(t *rapid.T) any { return rapid.SampledFrom([]string{"var/proxy.log", "", "l.log"}).Draw(t, "v") },
-	"logging.max_size":                         func(t *rapid.T) any { return drawBytes(t) },
-	"logging.max_backups":                      func(t *rapid.T) any { return rapid.SampledFrom([]int{0, 1, 3, 100}).Draw(t, "v") },
-	"logging.compress":                         func(t *rapid.T) any { return rapid.Bool().Draw(t, "v") },
-	"logging.to_stdout":                        func(t *rapid.T) any { return false },
+	// the API may only be disabled together with the dashboard (main.go refuses to start otherwise), so a value
+	// that is valid on its own is false; the coherent pair is exercised explicitly by C18
+	"webserver.api_disabled":             func(t *rapid.T) any { return false },
+	"cache.max_cache_size":               func(t *rapid.T) any { return drawBytes(t) },
+	"cache.type":                         func(t *rapid.T) any { return rapid.SampledFrom([]string{"memory", "file"}).Draw(t, "v") },
+	"cache.cleanup_interval":             func(t *rapid.T) any { return rapid.SampledFrom(durations).Draw(t, "v") },
+	"cache.lock_shards":                  func(t *rapid.T) any { return rapid.SampledFrom([]int{1, 2, 3, 64, 1024, 65536}).Draw(t, "v") },
+	"cache.file.dir":                     func(t *rapid.T) any { return rapid.SampledFrom([]string{"var/cache/", "c", "/tmp/x y/"}).Draw(t, "v") },
+	"cache.memory.memory_budget_percent": func(t *rapid.T) any { return rapid.SampledFrom([]int{1, 50, 75, 100}).Draw(t, "v") },
+	"logging.level":                      func(t *rapid.T) any { return rapid.SampledFrom(levels).Draw(t, "v") },
+	"logging.file":                       func(t *rapid.T) any { return rapid.SampledFrom([]string{"var/proxy.log", "", "l.log"}).Draw(t, "v") },
+	"logging.max_size":                   func(t *rapid.T) any { return drawBytes(t) },
+	"logging.max_backups":                func(t *rapid.T) any { return rapid.SampledFrom([]int{0, 1, 3, 100}).Draw(t, "v") },
+	"logging.compress":                   func(t *rapid.T) any { return rapid.Bool().Draw(t, "v") },
+	"logging.to_stdout":                  func(t *rapid.T) any { return false },
 }
 
 func drawBytes(t *rapid.T) any {
